@@ -6,7 +6,7 @@ import ast
 from typing import List, Optional
 
 from ..cfg import CFG, normal_compare
-from ..model import Func, own_nodes, unparse
+from ..model import AnalysisError, Func, own_nodes, unparse
 from ..pipeline import Pipeline
 from ..util import assignments_to, calls, const_str, names_in, zip_partner
 from ..values import texts
@@ -293,6 +293,12 @@ def check(ctx) -> None:
             ctx.finding("C10-A4", "mcs_process.ensemble_mcs:parallel-unordered", en.loc(c), "results of the per-condition search may arrive out of order; the tables of different conditions are joined by position")
     rule_a5(ctx)
     rule_a6(ctx)
+    rule_a11(ctx)
+    # A10: the search result of a reaction is computed from that reaction in this call: nothing the search stage keeps
+    # from an earlier batch is applied to a later one (shared with C06-B4, scope: the search stage)
+    from . import c06
+
+    c06.rule_b4(ctx, {q for q in ctx.res.reachable([FIND], ctx.graph) if q.startswith("synrbl.")}, "C10-A10", class_level=False)
     ok = _accumulates_in_order(en, pc)
     ctx.instance("C10-A4", "results appended in iteration order per condition", en.loc(), ok=ok)
     if not ok:
@@ -448,6 +454,43 @@ def _accumulates_in_order(en: Func, pcalls) -> bool:
         if any(isinstance(x, ast.Call) and isinstance(x.func, ast.Attribute) and isinstance(x.func.value, ast.Name) and x.func.value.id == lname and x.func.attr in ("sort", "reverse", "insert", "pop", "remove") for x in own_nodes(en.node)):
             return False
     return True
+
+
+def rule_a11(ctx, rule_id: str = "C10-A11") -> None:
+    """The total of a table row is the sum of the atom counts of its entries, each entry parsed on its own: an empty or
+    failed entry counts 0 and leaves the others alone.  Parsed as one joined pattern, a single empty entry ('C..C', a
+    trailing '.') makes the whole pattern unparsable, the row's total 0, and a smaller condition is retained."""
+    ctx.rule(rule_id, "a row's total is a sum over its entries, each counted on its own (no joined pattern)", 1)
+    prog = ctx.prog
+    calc = prog.func("synrbl.SynMCSImputer.SubStructure.extract_common_mcs.ExtractMCS.calculate_total_number_atoms_mcs_parallel")
+    funcs = [calc] + [g for g in prog.functions.values() if g.parent is calc]
+    n = 0
+    for g in funcs:
+        for c in calls(g):
+            if unparse(c.func).split(".")[-1] != "get_num_atoms" or not c.args:
+                continue
+            n += 1
+            arg = c.args[0]
+            exprs = [arg]
+            if isinstance(arg, ast.Name):
+                exprs += [v for _s, v, _i in assignments_to(g, arg.id)]
+            joined = next((x for e in exprs for x in ast.walk(e) if isinstance(x, ast.Call) and isinstance(x.func, ast.Attribute) and x.func.attr == "join"), None)
+            # element of an iteration over the row's entries?
+            elem = False
+            if isinstance(arg, ast.Name):
+                cur = getattr(c, "_parent", None)
+                while cur is not None and cur is not g.node:
+                    if isinstance(cur, (ast.GeneratorExp, ast.ListComp)) and any(isinstance(t, ast.Name) and t.id == arg.id for gen in cur.generators for t in ast.walk(gen.target)):
+                        elem = True
+                    if isinstance(cur, ast.For) and any(isinstance(t, ast.Name) and t.id == arg.id for t in ast.walk(cur.target)):
+                        elem = True
+                    cur = getattr(cur, "_parent", None)
+            ctx.instance(rule_id, "%s: get_num_atoms(%s) - element of an iteration over the entries: %s, joined pattern: %s" % (g.name, unparse(arg)[:40], elem, joined is not None), g.loc(c), ok=joined is None and elem)
+            if joined is not None:
+                ctx.finding(rule_id, "ExtractMCS.calculate_total_number_atoms_mcs_parallel:joined-pattern", g.loc(c), "the entries of a row are joined (%s) and counted as one pattern: one empty or failed entry makes the pattern unparsable and the whole row counts 0, so the condition with the most matched atoms is not the one retained" % unparse(joined)[:50])
+            elif not elem:
+                raise AnalysisError("%s: the argument of get_num_atoms is neither an entry of the row nor a joined pattern (form not modelled)" % g.loc(c))
+    ctx.require(n >= 1, "the per-row totals no longer go through get_num_atoms")
 
 
 def totals_alignment(ctx, rule_id: str) -> None:
